@@ -216,4 +216,37 @@ class C18b(Obligation):
         ctx.check(ctx.run(classes.BaseName.full_name.fget, none) is None, 'no qualified names => None')
 
 
-OBLIGATIONS = [C18a, C18b]
+class Cx:
+    def __init__(self, name, parent):
+        self.name = name
+        self.parent_context = parent
+
+
+class C18c(Obligation):
+    id = 'C18.c'
+    title = 'parent(): anonymous (comprehension) scopes are skipped however deeply nested; the answer always has a name'
+    pattern = 'P3 (context chain with a symbolic number of anonymous levels)'
+    assumptions = ('the context chain above a name has 0..3 anonymous comprehension contexts (symbolic) below a named scope',)
+
+    def scenario(self, ctx, cfg):
+        depth = ctx.choice('anonymous_levels', 4)
+        ctx.int('unused')
+        named = Cx(Obj(tag='enclosing-function-name'), None)
+        c = named
+        for i in range(depth):
+            c = Cx(None, c)
+        n = classes.BaseName.__new__(classes.BaseName)
+        n._pysym_holder = True
+        n._inference_state = None
+        n._name = Obj(is_value_name=True, tree_name=None, parent_context=c, api_type='statement')
+        n.is_keyword = False
+        ctx.patch(classes.BaseName, 'type', 'statement')
+        ctx.force(classes.BaseName.parent)
+        out = ctx.call(classes.BaseName.parent, n)
+        ctx.check(out.exc is None, 'never raises')
+        if out.exc is None:
+            ctx.check(out.value is not None and out.value._name is named.name,
+                      'the parent is the nearest NAMED enclosing scope')
+
+
+OBLIGATIONS = [C18a, C18b, C18c]
